@@ -140,7 +140,7 @@ class Gen:
 
 
 BADS = [("[abc", "ECONF_MISSING_BRACKET"), ("[abc] x", "ECONF_TEXT_AFTER_SECTION"), ("[]", "ECONF_EMPTY_SECTION_NAME"),
-        ("[ ]x", "ECONF_TEXT_AFTER_SECTION"), ("  [ab cd", "ECONF_MISSING_BRACKET"), ("[ ]", "ECONF_EMPTY_SECTION_NAME"),
+        ("[ ]x", "ECONF_TEXT_AFTER_SECTION"), ("  [ab cd", "ECONF_MISSING_BRACKET"),
         ("[a]]b", "ECONF_TEXT_AFTER_SECTION")]
 
 
